@@ -14,7 +14,7 @@ REPO = os.environ.get('VERIF_REPO', '/repo')
 ENV = dict(os.environ, GOFLAGS='-mod=mod', GOPROXY='off', GOSUMDB='off', GOTOOLCHAIN='local')
 
 def sh(cmd, cwd=None, timeout=1800):
-    p = subprocess.run(cmd, shell=True, cwd=cwd, env=ENV, stdout=subprocess.PIPE, stderr=subprocess.STDOUT, text=True, timeout=timeout)
+    p = subprocess.run(cmd, shell=True, cwd=cwd, env=ENV, stdout=subprocess.PIPE, stderr=subprocess.STDOUT, text=True, errors='replace', timeout=timeout)
     return p.returncode, p.stdout
 
 def run_demo(wt, mdir, pid):
@@ -85,7 +85,8 @@ def evaluate(sdir, props):
     rc, out = sh('git -C %s apply %s' % (REPO, os.path.join(os.path.abspath(sdir), 'patch.diff')))
     if rc != 0:
         print('apply failed', out); return 2
-    results = {}
+    rp = os.path.join(sdir, 'result.json')
+    results = json.load(open(rp)) if os.path.exists(rp) else {}
     try:
         for p in props:
             t0 = time.time()
